@@ -115,6 +115,16 @@ func (f *Fault) String() string {
 	return s
 }
 
+// HashName identifies the fault in run hashes: like String, but without what
+// depends on the order in which gorm happened to issue commutative statements
+// (the kind of the pool call a cancellation precedes).
+func (f *Fault) HashName() string {
+	if f != nil && f.Cancel != nil {
+		return fmt.Sprintf("cancel#%d", f.Cancel.K)
+	}
+	return f.String()
+}
+
 // Short is a compact signature of the fault for violation keys.
 func (f *Fault) Short() string {
 	if f == nil {
